@@ -4,7 +4,8 @@
    Specification: Spec/C12Spec.v (EmitsAt / EmitsIn, evident_type, expect_ty, sites, oracle, classes). *)
 From Coq Require Import String Ascii List Arith Bool.
 Require Import TT.Model.Str TT.Spec.TsLex TT.Spec.TsModule TT.Spec.TsObs TT.Model.Pipeline TT.Model.Events TT.Spec.C12Spec.
-Require Import TT.Proofs.C12Proofs TT.Proofs.C12Exact TT.Proofs.C12Payload TT.Proofs.C12Parse.
+Require Import TT.Proofs.C12Proofs TT.Proofs.C12Exact TT.Proofs.C12Payload TT.Proofs.C12Parse TT.Proofs.C12Lex TT.Proofs.C12Prefix.
+Require Import TT.Model.TypeParse TT.Model.Render TT.Spec.C05Spec TT.Proofs.TypeParseProofs.
 Import ListNotations.
 
 (* Walker completeness: every emit at a documented placement (expression statement, let
@@ -127,8 +128,28 @@ Proof. intros rs H. exact (conj (no_err_module rs) (conj (parse_module_toks rs H
    and on every case of the correspondence run). *)
 Definition C12_full_statement : Prop := C12Proofs.C12_full_statement.
 
-(* The remaining string-level step, NOT asserted: the template text lexes to module_toks. *)
-Definition C12_lex_statement : Prop := C12Parse.lex_statement.
+(* String level, character part (for every event list with legal names whose payload texts are one of
+   the five primitive texts or types.N): the specification lexer reads exactly module_toks from the
+   text the model prints (fuel included; the event name passes through the doc comment and the
+   single-quoted literal because the legal alphabet has no quote, backslash, line break or star). *)
+Theorem C12_lex_statement : forall l : evs,
+  (forall e, In e l -> legal_event_name (fst e) = true) -> forallb rec_ok (model_recs l) = true ->
+  lex_module (events_text l) = module_toks (model_recs l).
+Proof. exact lex_statement_holds. Qed.
+(* Hence the events.ts text of the model parses back, with the specification lexer and parser and
+   the observation layer, to exactly the listener records. *)
+Theorem C12_events_text_parses : forall l : evs,
+  (forall e, In e l -> legal_event_name (fst e) = true) -> forallb rec_ok (model_recs l) = true ->
+  parse_module (events_text l) = Some (header_items ++ map rec_item (model_recs l)) /\
+  option_map lsts (parse_module (events_text l)) = Some (map rec_lst (model_recs l)).
+Proof. exact events_text_parses. Qed.
+
+(* A custom payload type name N (identifier characters, not a primitive Rust name, not a TypeScript
+   builtin) is rendered by parse_type_structure / visitor / add_types_prefix to the text types.N -
+   for every such N (the finite leaves are payload_ts_leaves). *)
+Theorem C12_payload_text_custom : forall n, ident n -> idstr n -> prim_of n = None -> builtin n = false ->
+  payload_ts n = L "types." ++ n.
+Proof. exact payload_ts_custom. Qed.
 
 (* ---- non-vacuity ---- *)
 Definition clean_body : list stmt := [
@@ -210,3 +231,6 @@ Print Assumptions C12_tuple_repaired.
 Print Assumptions C12_path_repaired.
 Print Assumptions C12_refuted_without_classes.
 Print Assumptions C12_events_tokens_parse.
+Print Assumptions C12_lex_statement.
+Print Assumptions C12_events_text_parses.
+Print Assumptions C12_payload_text_custom.
